@@ -269,6 +269,23 @@ def run(chk, F, tier):
         chk.check(p is None, "R24d", "init:return-without-response",
                   "run_ls can return after initialize_start without initialize_finish or an error response", rl.loc(),
                   witness={"path_blocks": p})
+    # R24f: the transport never drops a client message
+    chk.rule("R24f", "the forwarding of client messages to the main loop never gives up on a message: no try_send (or other non-waiting send) on "
+                     "the path from the transport reader to the dispatcher")
+    nfw = 0
+    for b in F.bodies.values():
+        if b.crate != "emmylua_ls" or not b.id.startswith("emmylua_ls::server::") or "::test" in b.id:
+            continue
+        for bb, c in b.calls():
+            n = c.get("r") or c.get("f") or ""
+            if "mpsc" in n and n.split("::")[-1] in ("send", "try_send", "blocking_send", "send_timeout", "try_reserve"):
+                nfw += 1
+                lossy = n.split("::")[-1] in ("try_send", "send_timeout", "try_reserve")
+                chk.check(not lossy, "R24f", "forward@%s#%d" % (b.id.replace("emmylua_ls::server::", ""), nfw),
+                          "%s forwards a client message with %s: when the queue is full the message is dropped (and here the forwarding task ends), so the "
+                          "request is never answered and everything the client sends afterwards stays unread" % (b.id.split("::")[-1] if not b.id.endswith("}") else "::".join(b.id.split("::")[-2:]), n.split("::")[-1]),
+                          b.loc(c["l"]), sample={"rule": "R24f", "site": b.id, "verdict": "waiting send"})
+    chk.floor("message forwarding sends in the server transport", nfw, 1)
     chk.explanation = ("Must-pass-through / at-most-once on the dispatch coroutine, feasible-path enumeration of the request "
                        "task body with send counting, guard-edge checks on the initialization queue, panic-site scan between "
                        "initialize_start and initialize_finish.")
